@@ -3,7 +3,8 @@ import AmcVerif.Props.C04b
 (`translator/smallset2lean.py` → `Gen/SmallSetGen.lean`, tied to the hand-written model in `Bridge/SmallSetBridge.lean`): range
 insertion (`insert(first, last)`, `insert(initializer_list)`, `operator=(initializer_list)`, the range / initializer-list
 constructors), `erase(first, last)` (both iterator kinds), `swap`, `insert(hint, value)`, `extract`, the comparison operators
-(`C04_gen_eq`, `C04_gen_order`, `C04_gen_order_repr`).  Every statement also says
+(`C04_gen_eq_repr`, `C04_gen_eq_state`, `C04_gen_eq`, `C04_gen_eq_shared`, `C04_gen_order`, `C04_gen_order_repr`; the generated
+functions take the comparator objects of the two sets separately, `lt` and `lt_o`).  Every statement also says
 that no undefined behaviour is reached (the generated function returns `some _`). -/
 namespace AmcVerif.Props.C04
 open AmcVerif AmcVerif.FS AmcVerif.Sets AmcVerif.Bridge.SmallSet
@@ -126,46 +127,6 @@ theorem C04_gen_extract (hswo : SWO lt) (N : Nat) (s : SSet α) (h : s.Inv lt N)
       obtain ⟨y, hy⟩ := Bridge.FlatSet.getElem?_of_lt s.vec i (by omega)
       simp [hy]
 
-/-- `operator==` / `operator!=` on the code as it is now, with `==` of the elements being equality: two sets are equal exactly when
-    their iteration sequences are permutations of each other — whatever the states the two sets are in -/
-theorem C04_gen_eq [DecidableEq α] (hswo : SWO lt) (N : Nat) (s o : SSet α) (h : s.Inv lt N) (ho : o.Inv lt N) :
-    ∃ r, Gen.SmallSet.op_eq lt N s o (fun a b => decide (a = b)) = some r
-      ∧ Gen.SmallSet.op_ne lt N s o (fun a b => decide (a = b)) = some (!r.1, 0)
-      ∧ (r.1 = true ↔ s.elems.Perm o.elems) := by
-  refine ⟨_, op_eq_eq lt N s o _, op_ne_eq lt N s o _, ?_⟩
-  simp only [eqS]
-  by_cases hsz : s.size = o.size
-  · simp only [hsz, if_true]
-    cases hs : s.isSmall
-    · cases hos : o.isSmall
-      · -- both large: the two sorted sequences are equal
-        simp only [Bool.false_eq_true, if_false, vecEq_decide, decide_eq_true_eq, SSet.elems, hs, hos]
-        constructor
-        · intro he; rw [he]
-        · intro hp
-          exact List.Perm.eq_of_pairwise (le := fun a b => lt a b = true)
-            (fun a b _ _ hab hba => by rw [hswo.asymm hab] at hba; cases hba) h.sorted ho.sorted hp
-      · simp only [Bool.false_eq_true, if_false, if_true, isPermutation_decide, SSet.elems, hs, hos]
-    · simp only [if_true, isPermutation_decide, SSet.elems, hs]
-  · simp only [hsz, if_false, Bool.false_eq_true, false_iff]
-    intro hp
-    exact hsz hp.length_eq
-
-/-- the ordering operators on the code as it is now are all defined through `operator<` and are consistent with each other;
-    a set is not less than itself when `<` of the elements is irreflexive.  `operator<` sorts the inline elements of each set with
-    the comparator object of that set (`key_comp()` / `o.key_comp()`, here `lt`): the outcome is `ltS lt ltT`, which involves no
-    other comparator -/
-theorem C04_gen_order (N : Nat) (s o : SSet α) (ltT : α → α → Bool) (hirr : ∀ a, ltT a a = false) :
-    ∃ r, r = ltS lt ltT s o
-      ∧ Gen.SmallSet.op_lt lt N s o ltT = some (r, 0)
-      ∧ Gen.SmallSet.op_gt lt N o s ltT = some (r, 0)
-      ∧ Gen.SmallSet.op_ge lt N s o ltT = some (!r, 0)
-      ∧ Gen.SmallSet.op_le lt N o s ltT = some (!r, 0)
-      ∧ Gen.SmallSet.op_lt lt N s s ltT = some (false, 0) := by
-  refine ⟨_, rfl, op_lt_eq lt N s o ltT, op_gt_eq lt N o s ltT, op_ge_eq lt N s o ltT, op_le_eq lt N o s ltT, ?_⟩
-  rw [op_lt_eq]
-  simp only [ltS, vecLess_irrefl ltT hirr]
-
 /-- `std::sort` of a list without two equivalent elements, with the comparator `lt`: strictly increasing, same elements -/
 theorem sortedBy_sorted (hswo : SWO lt) (l : List α) (hnd : NoEquivDup lt l) :
     Sorted lt (Gen.SmallSet.sortedBy lt l) ∧ (Gen.SmallSet.sortedBy lt l).Perm l := by
@@ -199,7 +160,7 @@ theorem sortedBy_sorted (hswo : SWO lt) (l : List α) (hnd : NoEquivDup lt l) :
     | false => rfl
     | true => rw [hba] at h1; cases h1
 
-/-- the sequence that `operator<` compares is, for a set that satisfies the invariant, THE strictly increasing arrangement (by the
+/-- the sequence that `operator==` and `operator<` compare is, for a set that satisfies the invariant, THE strictly increasing arrangement (by the
     comparator `lt` of the set) of its elements, whether the set is inline or large -/
 theorem sortedElems_spec (hswo : SWO lt) (N : Nat) (s : SSet α) (h : s.Inv lt N) :
     Sorted lt (sortedElems lt s) ∧ (sortedElems lt s).Perm s.elems := by
@@ -210,23 +171,141 @@ theorem sortedElems_spec (hswo : SWO lt) (N : Nat) (s : SSet α) (h : s.Inv lt N
   · simp only [if_true]
     exact sortedBy_sorted hswo s.vec h.nodup
 
+/-- two sets that satisfy the invariant for the same comparator and hold the same elements are compared through the same
+    sequence, whatever the states they are in -/
+theorem sortedElems_congr (hswo : SWO lt) (N : Nat) (a b : SSet α) (ha : a.Inv lt N) (hb : b.Inv lt N)
+    (hab : a.elems.Perm b.elems) : sortedElems lt a = sortedElems lt b := by
+  obtain ⟨sa, pa⟩ := sortedElems_spec hswo N a ha
+  obtain ⟨sb, pb⟩ := sortedElems_spec hswo N b hb
+  exact List.Perm.eq_of_pairwise (le := fun x y => lt x y = true)
+    (fun x y _ _ hxy hyx => by rw [hswo.asymm hxy] at hyx; cases hyx) sa sb ((pa.trans hab).trans pb.symm)
+
+/-- the strictly increasing arrangement of the elements of a set is unique: any such list is the sequence that is compared -/
+theorem sortedElems_unique (hswo : SWO lt) (N : Nat) (s : SSet α) (h : s.Inv lt N) (ls : List α) (hls : Sorted lt ls)
+    (pls : ls.Perm s.elems) : sortedElems lt s = ls := by
+  obtain ⟨sa, pa⟩ := sortedElems_spec hswo N s h
+  exact List.Perm.eq_of_pairwise (le := fun x y => lt x y = true)
+    (fun x y _ _ hxy hyx => by rw [hswo.asymm hxy] at hyx; cases hyx) sa hls (pa.trans pls.symm)
+
+/-- `operator==` / `operator!=` on the code as it is now, for two sets whose comparator OBJECTS may differ (`lt` in `*this`, `lt_o`
+    in the other set): the answer is `std::set`'s — the element-wise comparison, with `==` of the element type, of the elements of
+    `*this` in strictly increasing `lt` order with the elements of the other set in strictly increasing `lt_o` order —, whatever
+    the states (inline or large) of the two sets.  `ls` / `lo` are ANY such arrangements (they exist and are unique:
+    `sortedElems_spec`, `sortedElems_unique`) -/
+theorem C04_gen_eq_repr {lt_o : α → α → Bool} (hswo : SWO lt) (hswo_o : SWO lt_o) (N : Nat) (s o : SSet α) (h : s.Inv lt N)
+    (ho : o.Inv lt_o N) (eqT : α → α → Bool) (ls lo : List α) (hls : Sorted lt ls) (pls : ls.Perm s.elems)
+    (hlo : Sorted lt_o lo) (plo : lo.Perm o.elems) :
+    Gen.SmallSet.op_eq lt N s lt_o o eqT = some (Gen.SmallSet.vecEq eqT ls lo, 0)
+      ∧ Gen.SmallSet.op_ne lt N s lt_o o eqT = some (!Gen.SmallSet.vecEq eqT ls lo, 0) := by
+  rw [op_eq_eq, op_ne_eq]
+  simp only [eqS, sortedElems_unique hswo N s h ls hls pls, sortedElems_unique hswo_o N o ho lo hlo plo, and_self]
+
+/-- hence the answer depends only on the elements of the two sets, not on the states they are in -/
+theorem C04_gen_eq_state {lt_o : α → α → Bool} (hswo : SWO lt) (hswo_o : SWO lt_o) (N : Nat) (s s' o o' : SSet α)
+    (h : s.Inv lt N) (h' : s'.Inv lt N) (ho : o.Inv lt_o N) (ho' : o'.Inv lt_o N) (hp : s.elems.Perm s'.elems)
+    (hpo : o.elems.Perm o'.elems) (eqT : α → α → Bool) :
+    Gen.SmallSet.op_eq lt N s lt_o o eqT = Gen.SmallSet.op_eq lt N s' lt_o o' eqT
+      ∧ Gen.SmallSet.op_ne lt N s lt_o o eqT = Gen.SmallSet.op_ne lt N s' lt_o o' eqT := by
+  simp only [op_eq_eq, op_ne_eq, eqS, sortedElems_congr hswo N s s' h h' hp, sortedElems_congr hswo_o N o o' ho ho' hpo,
+    and_self]
+
+/-- two sets that SHARE their comparator, with `==` of the elements being equality: they are equal exactly when their iteration
+    sequences are permutations of each other — whatever the states the two sets are in -/
+theorem C04_gen_eq [DecidableEq α] (hswo : SWO lt) (N : Nat) (s o : SSet α) (h : s.Inv lt N) (ho : o.Inv lt N) :
+    ∃ r, Gen.SmallSet.op_eq lt N s lt o (fun a b => decide (a = b)) = some r
+      ∧ Gen.SmallSet.op_ne lt N s lt o (fun a b => decide (a = b)) = some (!r.1, 0)
+      ∧ (r.1 = true ↔ s.elems.Perm o.elems) := by
+  refine ⟨_, op_eq_eq lt N s lt o _, op_ne_eq lt N s lt o _, ?_⟩
+  obtain ⟨_, pa⟩ := sortedElems_spec hswo N s h
+  obtain ⟨_, pb⟩ := sortedElems_spec hswo N o ho
+  simp only [eqS, vecEq_decide, decide_eq_true_eq]
+  constructor
+  · intro he
+    exact (pa.symm.trans (he ▸ List.Perm.refl _)).trans pb
+  · exact sortedElems_congr hswo N s o h ho
+
+/-- the equality of the historical source (`std::is_permutation` as soon as one side is inline), with `==` of the elements being
+    equality, on two sets that satisfy the invariant for the same comparator -/
+theorem eqPermS_iff [DecidableEq α] (hswo : SWO lt) (N : Nat) (s o : SSet α) (h : s.Inv lt N) (ho : o.Inv lt N) :
+    eqPermS (fun a b => decide (a = b)) s o = true ↔ s.elems.Perm o.elems := by
+  simp only [eqPermS]
+  by_cases hsz : s.size = o.size
+  · simp only [hsz, if_true]
+    cases hs : s.isSmall
+    · cases hos : o.isSmall
+      · -- both large: the two sorted sequences are equal
+        simp only [Bool.false_eq_true, if_false, vecEq_decide, decide_eq_true_eq, SSet.elems, hs, hos]
+        constructor
+        · intro he; rw [he]
+        · intro hp
+          exact List.Perm.eq_of_pairwise (le := fun a b => lt a b = true)
+            (fun a b _ _ hab hba => by rw [hswo.asymm hab] at hba; cases hba) h.sorted ho.sorted hp
+      · simp only [Bool.false_eq_true, if_false, if_true, isPermutation_decide, SSet.elems, hs, hos]
+    · simp only [if_true, isPermutation_decide, SSet.elems, hs]
+  · simp only [hsz, if_false, Bool.false_eq_true, false_iff]
+    intro hp
+    exact hsz hp.length_eq
+
+/-- nothing changes for two sets that share their comparator: `operator==` as it is now answers what the historical,
+    permutation-based `operator==` (`eqPermS`, the model the bridge had before the repair) answered -/
+theorem C04_gen_eq_shared [DecidableEq α] (hswo : SWO lt) (N : Nat) (s o : SSet α) (h : s.Inv lt N) (ho : o.Inv lt N) :
+    Gen.SmallSet.op_eq lt N s lt o (fun a b => decide (a = b)) = some (eqPermS (fun a b => decide (a = b)) s o, 0) := by
+  obtain ⟨r, hr, _, hiff⟩ := C04_gen_eq hswo N s o h ho
+  have hr1 : r.1 = eqPermS (fun a b => decide (a = b)) s o := by
+    rw [Bool.eq_iff_iff, hiff, eqPermS_iff hswo N s o h ho]
+  have hr2 : r.2 = 0 := by
+    have := hr; rw [op_eq_eq] at this; cases this; rfl
+  rw [hr, ← hr1, ← hr2]
+
+/-- the witness of V26 on the generated function: two inline sets (N = 2) holding the same elements 1 and 7, the comparator
+    object of the first ordering by `· % 7`, the one of the second by `· % 10`: the iteration sequences are 7, 1 and 1, 7, and
+    `operator==` answers `false` as `std::set`'s does (the historical `std::is_permutation` answered `true` while both were inline,
+    and `false` once both had grown) -/
+example : Gen.SmallSet.op_eq (fun a b : Nat => decide (a % 7 < b % 7)) 2 ⟨[1, 7], []⟩
+    (fun a b : Nat => decide (a % 10 < b % 10)) ⟨[1, 7], []⟩ (fun a b => a == b) = some (false, 0) := by
+  have h7 : Gen.SmallSet.sortedBy (fun a b : Nat => decide (a % 7 < b % 7)) [1, 7] = [7, 1] := by
+    simp [Gen.SmallSet.sortedBy, List.mergeSort, List.MergeSort.Internal.splitInTwo]
+  have h10 : Gen.SmallSet.sortedBy (fun a b : Nat => decide (a % 10 < b % 10)) [1, 7] = [1, 7] := by
+    simp [Gen.SmallSet.sortedBy, List.mergeSort, List.MergeSort.Internal.splitInTwo]
+  simp [Gen.SmallSet.op_eq, Gen.SmallSet.size, Gen.SmallSet.isSmall, Gen.SmallSet.isSmallOf, op_eq_pred_eq, h7, h10,
+    Gen.SmallSet.vecEq]
+
+example : eqPermS (fun a b : Nat => a == b) ⟨[1, 7], []⟩ ⟨[1, 7], []⟩ = true := by
+  decide +kernel
+
+/-- the same two sets once large (backing sets 7, 1 and 1, 7): `false` as well -/
+example : Gen.SmallSet.op_eq (fun a b : Nat => decide (a % 7 < b % 7)) 2 ⟨[], [7, 1]⟩
+    (fun a b : Nat => decide (a % 10 < b % 10)) ⟨[], [1, 7]⟩ (fun a b => a == b) = some (false, 0) := by
+  decide +kernel
+
+/-- the ordering operators on the code as it is now are all defined through `operator<` and are consistent with each other;
+    a set is not less than itself when `<` of the elements is irreflexive.  `operator<` sorts the inline elements of each set with
+    the comparator object of that set (`key_comp()` = `lt` / `o.key_comp()` = `lt_o`): the outcome is `ltS lt lt_o ltT`, which
+    involves no other comparator -/
+theorem C04_gen_order {lt_o : α → α → Bool} (N : Nat) (s o : SSet α) (ltT : α → α → Bool) (hirr : ∀ a, ltT a a = false) :
+    ∃ r, r = ltS lt lt_o ltT s o
+      ∧ Gen.SmallSet.op_lt lt N s lt_o o ltT = some (r, 0)
+      ∧ Gen.SmallSet.op_gt lt_o N o lt s ltT = some (r, 0)
+      ∧ Gen.SmallSet.op_ge lt N s lt_o o ltT = some (!r, 0)
+      ∧ Gen.SmallSet.op_le lt_o N o lt s ltT = some (!r, 0)
+      ∧ Gen.SmallSet.op_lt lt N s lt s ltT = some (false, 0) := by
+  refine ⟨_, rfl, op_lt_eq lt N s lt_o o ltT, op_gt_eq lt_o N o lt s ltT, op_ge_eq lt N s lt_o o ltT,
+    op_le_eq lt_o N o lt s ltT, ?_⟩
+  rw [op_lt_eq]
+  simp only [ltS, vecLess_irrefl ltT hirr]
+
 /-- what `operator<` and the operators defined through it answer does not depend on the states the two sets are in (inline or
     large), only on their elements: sets with the same elements are interchangeable on either side.  This rests on each side being
-    ordered by the comparator object of its own set, which is also the one that orders the backing set -/
-theorem C04_gen_order_repr (hswo : SWO lt) (N : Nat) (s s' o o' : SSet α) (h : s.Inv lt N) (h' : s'.Inv lt N)
-    (ho : o.Inv lt N) (ho' : o'.Inv lt N) (hp : s.elems.Perm s'.elems) (hpo : o.elems.Perm o'.elems) (ltT : α → α → Bool) :
-    Gen.SmallSet.op_lt lt N s o ltT = Gen.SmallSet.op_lt lt N s' o' ltT
-      ∧ Gen.SmallSet.op_le lt N s o ltT = Gen.SmallSet.op_le lt N s' o' ltT
-      ∧ Gen.SmallSet.op_gt lt N s o ltT = Gen.SmallSet.op_gt lt N s' o' ltT
-      ∧ Gen.SmallSet.op_ge lt N s o ltT = Gen.SmallSet.op_ge lt N s' o' ltT := by
-  have key : ∀ (a b : SSet α), a.Inv lt N → b.Inv lt N → a.elems.Perm b.elems → sortedElems lt a = sortedElems lt b := by
-    intro a b ha hb hab
-    obtain ⟨sa, pa⟩ := sortedElems_spec hswo N a ha
-    obtain ⟨sb, pb⟩ := sortedElems_spec hswo N b hb
-    exact List.Perm.eq_of_pairwise (le := fun x y => lt x y = true)
-      (fun x y _ _ hxy hyx => by rw [hswo.asymm hxy] at hyx; cases hyx) sa sb ((pa.trans hab).trans pb.symm)
-  have e1 := key s s' h h' hp
-  have e2 := key o o' ho ho' hpo
+    ordered by the comparator object of its own set, which is also the one that orders its backing set -/
+theorem C04_gen_order_repr {lt_o : α → α → Bool} (hswo : SWO lt) (hswo_o : SWO lt_o) (N : Nat) (s s' o o' : SSet α)
+    (h : s.Inv lt N) (h' : s'.Inv lt N) (ho : o.Inv lt_o N) (ho' : o'.Inv lt_o N) (hp : s.elems.Perm s'.elems)
+    (hpo : o.elems.Perm o'.elems) (ltT : α → α → Bool) :
+    Gen.SmallSet.op_lt lt N s lt_o o ltT = Gen.SmallSet.op_lt lt N s' lt_o o' ltT
+      ∧ Gen.SmallSet.op_le lt N s lt_o o ltT = Gen.SmallSet.op_le lt N s' lt_o o' ltT
+      ∧ Gen.SmallSet.op_gt lt N s lt_o o ltT = Gen.SmallSet.op_gt lt N s' lt_o o' ltT
+      ∧ Gen.SmallSet.op_ge lt N s lt_o o ltT = Gen.SmallSet.op_ge lt N s' lt_o o' ltT := by
+  have e1 := sortedElems_congr hswo N s s' h h' hp
+  have e2 := sortedElems_congr hswo_o N o o' ho ho' hpo
   simp only [op_lt_eq, op_le_eq, op_gt_eq, op_ge_eq, ltS, e1, e2, and_self]
 
 end AmcVerif.Props.C04
